@@ -55,7 +55,9 @@ type Frame struct {
 	vacDone  map[int]bool
 	loops    []*loopCtx
 	callResults map[string]Val
+	curMode    string // contract mode selected for the call being executed (`at F K mode M`)
 	loopFrames map[*ssa.BasicBlock]*loopFrame
+	loopEntry  map[*ssa.BasicBlock]*State // state on entering a loop (before the head is havocked), for pre(E)
 }
 
 type loopFrame struct {
@@ -519,6 +521,10 @@ func (s *Session) enterBlock(fr *Frame, b *ssa.BasicBlock) *State {
 	for _, ph := range phis {
 		fr.vals[ph] = entryVals[ph]
 	}
+	if fr.loopEntry == nil {
+		fr.loopEntry = map[*ssa.BasicBlock]*State{}
+	}
+	fr.loopEntry[b] = st.clone()
 	for i, inv := range invs {
 		subs := splitClause(inv)
 		for _, sub := range subs {
@@ -598,7 +604,7 @@ func (s *Session) enterBlock(fr *Frame, b *ssa.BasicBlock) *State {
 			}
 			before := s.heapGet(st, n, sortN)
 			s.havocHeap(st, n, sortN)
-			if n == "X:evlast" || n == "X:evres" {
+			if n == "X:evlast" || n == "X:evres" || n == "X:evcount" {
 				// only the events that can be raised inside the loop lose their recorded position / result
 				after := st.Heap[n]
 				s.nfresh++
@@ -965,7 +971,7 @@ func (s *Session) step(fr *Frame, in ssa.Instruction, st *State) {
 			s.safety(fr, st, "index", And(Le(I(0), idx), Lt(idx, base.L[2])), "index in range of slice "+x.X.Name())
 			off := idx
 			if base.L[1].S != "0" {
-				off = Add(base.L[1], idx)
+				off = s.sidx(base.L[1], idx)
 			}
 			fr.vals[x] = Val{Typ: x.Type(), Loc: &Loc{Kind: "A", TypeKey: typeKey(bt.Elem()), Ref: base.L[0], Idx: []T{off}, Typ: bt.Elem()}}
 		case *types.Pointer:
